@@ -80,7 +80,7 @@ def run(ctx):
                 kind_s = (storage["i"] // 7) % 2
                 if kind_s == 0:
                     X = X.astype("Float64")          # np.nan becomes pd.NA
-                elif p >= 2:
+                elif p >= 2 and not X[0].isna().any():
                     X[0] = (X[0].fillna(0).round() + np.arange(n) % 3).astype("Int64")
                 # (object-dtype columns are outside the numeric dtypes the properties quantify over: PELT(GaussianCovCost) raises AttributeError
                 #  inside np.cov on them -- noted in DESIGN.md, not part of this grid)
@@ -107,7 +107,7 @@ def run(ctx):
     def record(det_coq, det_name, params, cfg, mk, p, min_len, boundary, lohi=True):
         ns = sorted(set([max(0, min_len - 2), max(0, min_len - 1), min_len, min_len + 1, min_len + 6] + ([] if quick else [min_len + 2, min_len + 3])))
         for n in ns:
-            for nan in ([False, True] if (n >= min_len and n > 0 and (not quick or n == min_len)) else [False]):
+            for nan in ([False, True] if (n >= min_len and n > 0 and (not quick or n in (min_len, min_len + 6))) else [False]):
                 res, stage, msg = attempt(mk, n, p, nan)
                 inp = {"detector": det_name, "params": params, "p": p, "n": n, "nan": nan, "outcome": res, "stage": stage, "message": msg}
                 ctx.count("detector", det_name)
